@@ -196,6 +196,9 @@ def case(job):
             if not (np.array_equal(qlon, keep_lon) and np.array_equal(qlat, keep_lat)):
                 bad("request-arrays-modified", "the sampler changed the caller's coordinate arrays")
                 break
+            if out.shape != ((1, n2, 3) if rgb else (1, n2)):
+                bad("result-shape", "result shape %r for a request of shape %r" % (out.shape, (1, n2)))
+                break
             flat = out.reshape((n2, 3)) if rgb else out.reshape(n2)
             cell = (flat[:, 0].astype(int) + 251 * flat[:, 1].astype(int)) if rgb else flat.astype(int)
             wrong = [int(k) for q, k in enumerate(idx) if (int(cell[q]) // nx, int(cell[q]) % nx) not in accept[k]]
@@ -236,6 +239,9 @@ def case(job):
                 out = np.asarray(sampler(qlon, qlat))
             except Exception as e:
                 bad("raises-on-%s-coordinates:%s" % (tname, type(e).__name__), repr(e))
+                continue
+            if out.shape != ((len(li), 3) if rgb else (len(li),)):
+                bad("result-shape", "result shape %r for a request of shape %r (%s coordinates)" % (out.shape, (len(li),), tname))
                 continue
             flat = out.reshape((len(li), 3)) if rgb else out.reshape(len(li))
             cell = (flat[:, 0].astype(int) + 251 * flat[:, 1].astype(int)) if rgb else flat.astype(int)
